@@ -13,7 +13,8 @@ import json, os, subprocess, sys, shutil, time
 
 VERIF = os.path.dirname(os.path.dirname(os.path.abspath(__file__)))
 REPO = "/repo"
-GOENV = dict(os.environ, GOFLAGS="-mod=mod", GOPROXY="off", GOSUMDB="off", GOTOOLCHAIN="local")
+GOENV = dict(os.environ, GOFLAGS="-mod=mod", GOPROXY="off", GOSUMDB="off", GOTOOLCHAIN="local",
+             GOCACHE="/tmp/gocache-iso")  # scratch worktrees get their own build cache: it is wiped with them (the shared one grew to 114 GB)
 
 
 def sh(cmd, cwd=None, env=None, timeout=3600):
